@@ -175,9 +175,10 @@ def matrix_system(
     if bk == "none":
         baseline = None
     elif bk == "scalar":
-        baseline = draw(st.one_of(st.sampled_from([0.0, 1.0, 0.1]), st.floats(0.0, 5.0)))
+        # baseline is exactly zero or at least 1e-3 capture units (adapted regime)
+        baseline = draw(gens.scalar(0.0, 5.0, tiny=1e-3, nice=(0.0, 1.0, 0.1)))
     else:
-        baseline = draw(gens.array((mm,), 0.0, 5.0, styles=("raw", "raw", "sparse")))
+        baseline = draw(gens.array((mm,), 0.0, 5.0, styles=("raw", "raw", "sparse"), tiny=1e-3))
     # bounds
     uk = draw(st.sampled_from(ub_kinds))
     ub = None if uk == "inf" else draw(gens.array((nn,), 0.05, 10.0, styles=("raw", "int100")))
@@ -187,7 +188,7 @@ def matrix_system(
     if lk == "zero":
         lb = draw(st.sampled_from([None, [0.0] * nn]))
     else:
-        fr = draw(gens.array((nn,), 0.0, 0.6, styles=("raw", "sparse")))
+        fr = draw(gens.array((nn,), 0.0, 0.6, styles=("raw", "sparse"), tiny=1e-2))
         top = ub if ub is not None else [1.0] * nn
         lb = [float(f) * float(u) for f, u in zip(fr, top)]
     # capture matrix, redrawn (bounded) until well-conditioned
@@ -359,13 +360,13 @@ def estimator_system(draw, nf=(2, 5), ns=(1, 8), nd=(5, 40), K_kinds=("none", "s
         P = np.asarray(draw(gens.array((f, f), -0.3, 0.3, styles=("raw",)))).reshape(f, f)
         K = (np.eye(f) * draw(st.floats(0.5, 2.0)) + P * (1 - np.eye(f)) / max(1, f - 1)).tolist()
     bk = draw(st.sampled_from(base_kinds))
-    baseline = None if bk == "none" else (draw(st.floats(0.0, 5.0)) if bk == "scalar" else draw(gens.array((f,), 0.0, 5.0)))
+    baseline = None if bk == "none" else (draw(gens.scalar(0.0, 5.0, tiny=1e-3)) if bk == "scalar" else draw(gens.array((f,), 0.0, 5.0, tiny=1e-3)))
     out = dict(filters=filters, sources=sources, domain=domain, K=K, baseline=baseline)
     if bounds:
         ub = draw(st.one_of(st.none(), gens.array((s,), 0.05, 10.0, styles=("raw",))))
         lb = draw(st.one_of(st.none(), st.just([0.0] * s)))
         if ub is not None and draw(st.integers(0, 3)) == 0:
-            fr = draw(gens.array((s,), 0.0, 0.6, styles=("raw",)))
+            fr = draw(gens.array((s,), 0.0, 0.6, styles=("raw",), tiny=1e-2))
             lb = [float(a) * float(b) for a, b in zip(fr, ub)]
         out.update(lb=lb, ub=ub)
     return out
